@@ -17,6 +17,9 @@ for d in sorted((V / "seeded").iterdir()):
     keys = [v["key"] for v in r.get("violations", []) if v.get("key")][:2]
     how = "failing input: " + ", ".join(f"`{k}`" for k in keys) if ver.get("detected_with_failing_input") else (
         "broken obligation only (no-failing-input-found)" if ver.get("detected") else "**missed**")
+    if m.get("neutralised_by") and not ver.get("detected"):
+        how = (f"no longer breaks the property since `fix:` {m['neutralised_by']['commit']} (its own demo passes with the change); "
+               "before that fix: failing input")
     summ = re.sub(r"\s+", " ", m.get("summary", ""))[:230]
     rows.append(f"| {d.name} | {pid} | {', '.join(Path(f).name for f in m.get('files', []))} | {summ} | {how} |")
 table = "\n".join(["| seed | property | file | change | caught by `./check <property>` (quick) |", "|---|---|---|---|---|"] + rows)
